@@ -149,6 +149,12 @@ func checkC18(ctx *Ctx) {
 		return
 	}
 	quietLogs()
+	for i := 0; i < ctx.N(2, 12); i++ {
+		if ctx.Mine(i) {
+			ctx.SetCurrent(fmt.Sprintf("C18 stalled-subscriber burst %d", i))
+			c18Stalled(ctx, i)
+		}
+	}
 	n := ctx.N(64, 1200)
 	for i := 0; i < n; i++ {
 		if !ctx.Mine(i) {
@@ -666,4 +672,102 @@ func c18Introspect(ctx *Ctx, admin *Client, subs []*psSub, fail func(string, str
 	}
 	sort.Strings(keys)
 	ctx.Class(fmt.Sprintf("introspection|channels=%d|patterns=%d", len(regular), len(patterns)))
+}
+
+// c18Stalled: one subscriber stops reading while a publisher sends a burst larger than any internal buffer;
+// the publisher may be held back (back-pressure) but when the subscriber resumes, every message must arrive
+// exactly once and in publish order.
+func c18Stalled(ctx *Ctx, i int) {
+	port := freePort()
+	in, err := NewInst(InstOpts{Extra: withTCP(port)})
+	if err != nil {
+		ctx.Broken(err.Error())
+		return
+	}
+	defer in.Close()
+	if err := in.StartTCP(port); err != nil {
+		ctx.Inconclusive("listener did not come up")
+		return
+	}
+	sub, err := Dial(port)
+	if err != nil {
+		return
+	}
+	defer sub.Close()
+	// messages big enough that a subscriber that does not read fills the socket buffers and stalls the server
+	pad := strings.Repeat("p", 4096)
+	pat := i%2 == 1
+	if pat {
+		sub.Send(resp.Encode("PSUBSCRIBE", "bur*"))
+	} else {
+		sub.Send(resp.Encode("SUBSCRIBE", "burst"))
+	}
+	if v, _, err := sub.Read(5 * time.Second); err != nil || v.IsError() {
+		ctx.Inconclusive("subscribe failed")
+		return
+	}
+	total := 12000 + 1000*(i%3)
+	done := make(chan int, 1)
+	go func() {
+		sent := 0
+		for k := 0; k < total; k++ {
+			if v, _, crash := in.Do("PUBLISH", "burst", fmt.Sprintf("b-%06d", k)+pad); crash != "" || v.IsError() {
+				break
+			}
+			sent++
+		}
+		done <- sent
+	}()
+	// the subscriber does not read for a while: the publisher fills every buffer on the way
+	time.Sleep(150 * time.Millisecond)
+	next := 0
+	sent := -1
+	deadline := time.Now().Add(60 * time.Second)
+	for (sent < 0 || next < sent) && time.Now().Before(deadline) {
+		select {
+		case sent = <-done:
+		default:
+		}
+		v, _, err := sub.Read(2 * time.Second)
+		if err != nil {
+			if sent >= 0 && next >= sent {
+				break
+			}
+			if sent >= 0 {
+				ctx.Violate(Violation{Kind: "lost", Lane: "pubsub-stalled", What: fmt.Sprintf("burst of %d publishes to a subscriber that had stopped reading: after it resumed only %d messages arrived (next expected b-%06d): %v", sent, next, next, err),
+					Case: map[string]interface{}{"burst": total, "pattern": pat}, Key: "c18|stalled|lost"})
+				return
+			}
+			continue
+		}
+		if !v.IsSeq() || len(v.Elems) != 3 {
+			continue
+		}
+		d, _ := v.Elems[2].Text()
+		if len(d) > 8 {
+			d = d[:8]
+		}
+		want := fmt.Sprintf("b-%06d", next)
+		if d != want {
+			ctx.Violate(Violation{Kind: "order", Lane: "pubsub-stalled", What: fmt.Sprintf("burst of %d publishes by one publisher to a subscriber that had stopped reading for a while: message %s arrived where %s was expected (out of order, duplicated or lost)", total, d, want),
+				Case: map[string]interface{}{"burst": total, "pattern": pat}, Key: "c18|stalled|order"})
+			return
+		}
+		next++
+	}
+	if sent < 0 {
+		select {
+		case sent = <-done:
+		case <-time.After(20 * time.Second):
+			ctx.Inconclusive("stalled-subscriber lane: publisher did not finish")
+			return
+		}
+	}
+	ctx.Eval(1)
+	ctx.Count("stalled_burst_messages", int64(next))
+	ctx.Class(fmt.Sprintf("stalled-burst|pattern=%v|n>%d", pat, total/1000*1000))
+	if next < sent {
+		ctx.Violate(Violation{Kind: "lost", Lane: "pubsub-stalled", What: fmt.Sprintf("burst of %d publishes: only %d messages arrived", sent, next),
+			Case: map[string]interface{}{"burst": total, "pattern": pat}, Key: "c18|stalled|lost"})
+	}
 }
